@@ -215,7 +215,7 @@ Proof. exact text_history_colwidth. Qed.
 Print Assumptions c03_history_colwidth.
 
 (* RENDER-TIME CALLBACKS THAT CHANGE CELLS (Model/TextLive.v, Spec/TextPassSpec.v,
-   Proofs/TextPassProofs.v).  `regs` are the callbacks registered on the table,
+   Proofs/TextLiveProofs.v).  `regs` are the callbacks registered on the table,
    its columns, rows and cells in registration order - the measuring callback
    of every text wrapper among them, where texttable.Wrap was called; an
    application callback gives the item of the cell it is handed its next
